@@ -16,13 +16,17 @@ def gen_case(rng, maxops, big):
     files = {}     # name -> exists as file (approximate bookkeeping, the model decides)
     dirs = set()
     opened = None
+    cur = 0
     for _ in range(rng.range(3, maxops)):
         if opened is None:
-            k = rng.weighted([("open_w", 6), ("open_r", 6), ("mkdir", 1), ("mkfile", 2), ("bad", 1)])
+            k = rng.weighted([("open_w", 6), ("open_r", 6), ("mkdir", 1), ("symlink", 1), ("mkfile", 2), ("bad", 1)])
             n = rng.below(4)
             if k == "mkdir":
                 if n in files or n in dirs: continue
                 dirs.add(n); lines.append([30, n])
+            elif k == "symlink":     # a symbolic link to a directory
+                if n in files or n in dirs or not dirs: continue
+                lines.append([32, n, rng.choice(sorted(dirs))]); dirs.add(n)
             elif k == "mkfile":
                 if n in dirs: continue
                 files[n] = True; lines.append([31, n] + rand_bytes(rng, 300))
@@ -31,22 +35,32 @@ def gen_case(rng, maxops, big):
                 m = rng.choice([3, 4, 5, 6])
                 lines.append([1, n, m])
                 if n not in dirs:
-                    files[n] = True; opened = ("w", m)
+                    files[n] = True; opened = ("w", m); cur = n
             elif k == "open_r":
                 if rng.chance(1, 10) and dirs: n = rng.choice(sorted(dirs))
                 m = rng.choice([1, 2])
                 lines.append([1, n, m])
                 if n in files and n not in dirs:
-                    opened = ("r", m)
+                    opened = ("r", m); cur = n
             else:
                 lines.append(rng.choice([[2], [5], [3, 1, 2], [9]]))
         else:
             kind, m = opened
             if kind == "w":
-                k = rng.weighted([("write", 10), ("close", 4), ("seek", 1), ("tell", 2), ("size", 3)])
+                k = rng.weighted([("write", 10), ("close", 4), ("seek", 1), ("tell", 2), ("size", 3), ("reopen", 2)])
             else:
-                k = rng.weighted([("readall", 5), ("readstr", 4), ("readn", 5), ("close", 4), ("seek", 4), ("tell", 3), ("size", 4)])
-            if k == "write":
+                k = rng.weighted([("readall", 5), ("readstr", 4), ("readn", 5), ("close", 4), ("seek", 4), ("tell", 3), ("size", 4), ("reopen", 1)])
+            if k == "reopen":
+                # open() on the File that is open: often the same path again, sometimes a directory or a missing file (the open fails
+                # and the old stream stays open)
+                n = cur if rng.chance(1, 2) else rng.below(4)
+                m2 = rng.choice([1, 2, 3, 4, 5, 6])
+                lines.append([1, n, m2])
+                if n in dirs or (m2 <= 2 and n not in files):
+                    pass
+                else:
+                    files[n] = True; opened = ("w" if m2 >= 3 else "r", m2); cur = n
+            elif k == "write":
                 lines.append([3] + rand_bytes(rng, 5000 if big else 600))
             elif k == "close":
                 lines.append([2]); opened = None
@@ -111,7 +125,7 @@ class C17(Spec):
 
     def classify(self, lines):
         names = {"30": "mkdir", "31": "create file", "1": "open", "2": "close", "3": "write", "4": "read(buf)", "5": "read()",
-                 "6": "readStr()", "7": "seek", "8": "tell", "9": "size"}
+                 "6": "readStr()", "7": "seek", "8": "tell", "9": "size", "32": "symlink to a directory"}
         tags = set()
         for l in lines[1:]:
             t = l.split()
